@@ -123,12 +123,15 @@ func formatCommentCharacter(comment string, char rune) string {
 	return string(bs)
 }
 
-// Return comment is inline comment that has "/* ... */" syntax
+// Return comments are inline comments that have "/* ... */" syntax.
+// If any of them is a line comment, the following code must be printed on the next line.
 func isInlineComment(comments ast.Comments) bool {
-	if len(comments) == 0 {
-		return true
+	for i := range comments {
+		if !strings.HasPrefix(comments[i].Value, "/*") {
+			return false
+		}
 	}
-	return strings.HasPrefix(comments[0].Value, "/*")
+	return true
 }
 
 // Get latest line offset (character length) from current buffer
